@@ -257,8 +257,9 @@ def check_modes(rng, X, desc):
     calls3 = [("from_global(dof_fallback)", lambda: ModeStatistics.from_global(U, w, dof_fallback=fb)),
               ("from_particles(dof_fallback)", lambda: ModeStatistics.from_particles(U, w, labels, dof_fallback=fb))]
     if has_n_modes:
-        calls3 += [("from_particles(n_modes, empty labels, dof_fallback)", lambda: ModeStatistics.from_particles(U, w, lab2, dof_fallback=fb, n_modes=6)),
-                   ("from_particles(n_modes, one-particle-dominated small label, dof_fallback)", lambda: ModeStatistics.from_particles(U, w3, lab3, dof_fallback=fb, n_modes=2))]
+        calls3 += [("from_particles(n_modes, empty labels, dof_fallback)", lambda: ModeStatistics.from_particles(U, w, lab2, dof_fallback=fb, n_modes=6))]
+        if n - k_small >= 4 * d + 8:        # (the rest of the pool must be a healthy label, or the whole pool is degenerate)
+            calls3 += [("from_particles(n_modes, one-particle-dominated small label, dof_fallback)", lambda: ModeStatistics.from_particles(U, w3, lab3, dof_fallback=fb, n_modes=2))]
     for nm, f in calls3:
         try:
             with contextlib.redirect_stdout(io.StringIO()), np.errstate(all="ignore"):
